@@ -5,6 +5,7 @@ package props
 
 import (
 	"bytes"
+	"encoding/hex"
 	"encoding/json"
 	"fmt"
 	"os"
@@ -20,6 +21,8 @@ import (
 	abci "github.com/cometbft/cometbft/abci/types"
 	tmproto "github.com/cometbft/cometbft/proto/tendermint/types"
 	"pgregory.net/rapid"
+
+	epochstypes "github.com/haqq-network/haqq/x/epochs/types"
 
 	"verif/chain"
 	"verif/ev"
@@ -517,6 +520,18 @@ func runC19(st *ev.Stats, h History) string {
 			prefix = fmt.Sprintf("%02x", d.Key[0])
 		}
 		key := "store:" + d.Store + ":" + prefix
+		if d.Store == "epochs" && prefix == "01" {
+			// an epoch record: the listed finding explains a different start height and nothing else
+			var ea, eb epochstypes.EpochInfo
+			if d.A == nil || d.B == nil || ea.Unmarshal(d.A) != nil || eb.Unmarshal(d.B) != nil {
+				key += ":record-missing-or-unreadable"
+			} else {
+				ea.CurrentEpochStartHeight, eb.CurrentEpochStartHeight = 0, 0
+				if ea.String() != eb.String() {
+					key += ":other-fields"
+				}
+			}
+		}
 		if seenStoreKeys[key] {
 			continue
 		}
@@ -541,6 +556,9 @@ func runC19(st *ev.Stats, h History) string {
 				continue
 			}
 			key := "query:" + name
+			if name == "epochs.infos" && c19EpochsDifferBeyondStartHeight(b1[q], b2[q]) {
+				key += ":other-fields"
+			}
 			if msg := fail(key, fmt.Sprintf("%s: query %s answered differently after re-import: %s vs %s", phase, q, trunc(b1[q]), trunc(b2[q]))); msg != "" {
 				return msg
 			}
@@ -579,6 +597,32 @@ func runC19(st *ev.Stats, h History) string {
 		st.NonTrivial(h)
 	}
 	return ""
+}
+
+// c19EpochsDifferBeyondStartHeight decodes two EpochInfos answers ("code|hex") and compares them with the start heights
+// masked (the listed finding re-bases exactly that field).
+func c19EpochsDifferBeyondStartHeight(a, b string) bool {
+	dec := func(s string) (string, bool) {
+		parts := strings.SplitN(s, "|", 2)
+		if len(parts) != 2 || parts[0] != "0" {
+			return "", false
+		}
+		bz, err := hex.DecodeString(parts[1])
+		if err != nil {
+			return "", false
+		}
+		var r epochstypes.QueryEpochsInfoResponse
+		if r.Unmarshal(bz) != nil {
+			return "", false
+		}
+		for i := range r.Epochs {
+			r.Epochs[i].CurrentEpochStartHeight = 0
+		}
+		return r.String(), true
+	}
+	x, ok1 := dec(a)
+	y, ok2 := dec(b)
+	return !ok1 || !ok2 || x != y
 }
 
 // c19Stores: the stores compared byte by byte between the exporting chain and the re-imported chain - the Haqq modules
